@@ -1,6 +1,7 @@
 import SasLexer.Spec.Basic
 import SasLexer.Properties.C03
 import SasLexer.Proofs.Pure.Lines
+import SasLexer.Proofs.Model.DiscTop
 /-!
 # C04 — lines and columns: theorems
 
@@ -17,11 +18,15 @@ is correct, no `u32` subtraction underflows).  So the token clauses of C04 are r
 discipline (`lineWFB`, a decidable monitor with `lineWFB_sound`).  Edge noted by the proof: with
 2^32−1 line feeds `line + 1` would overflow `u32`; such an input needs > 100 GB of buffers.
 Not a kernel fact (a program over the primitives may call `add_line` anywhere): that line
-starts are recorded exactly after each line feed.  That is the *line discipline* of the ~15
-scanners of the control logic; it is decided per run by `Spec.C04` (which recomputes the line
-table, every line/column and every end position from the text) on implementation dumps and
-tied by correspondence on the (offset, line, line table, error line/column, resolved view)
-projection.  `C04_partial`: the clause proved; the rest is labelled model-level.
+starts are recorded exactly after each line feed.  That is the *line discipline* of the scanners of
+the control logic.  It is now a **theorem about the modelled control logic, for every input**: the
+discipline is the predicate `awp` on programs (`Proofs/Model/Disc.lean`), proved of every function of
+the model (`DiscCommon`, `DiscMacroCall`, `DiscMacroEval`, `DiscMacroArgs`, `DiscOpen`, `DiscMain`), sound
+for every run (`DiscSound.awp_sound`); `C04_model` below combines it with the pure theorem into the
+full statement of C04 for the model (hypothesis: the model returns at end of input — totality is C01).
+The implementation is tied to it as before: `Spec.C04` (which recomputes the line table, every
+line/column and every end position from the text) judges every implementation dump, and the
+(offset, line, line table, error line/column, resolved view) projection is compared with the model.
 -/
 namespace SasLexer
 
@@ -132,6 +137,110 @@ inside a string and inside a comment, a rollback and an empty recovery token sat
 so `C04_of_lineWF` applies to it -/
 example : lineWFB "\uFEFFa='x\ny';/*\n*/%m\n\n (a\n=1);%let b 1;".toList
     (lexProgram ⟨true, true, false⟩ "\uFEFFa='x\ny';/*\n*/%m\n\n (a\n=1);%let b 1;".toList).buf = true := by
+  decide +kernel
+
+/-! ## the line discipline is a theorem (model level, every input)
+
+`Proofs/Model/Disc*.lean` prove that the whole modelled control logic (every scanner, dispatcher, pre-loader, the
+main loop, finalisation) satisfies the scanning discipline `awp`, and `DiscSound.lean` that every program with
+`awp` keeps the line table exact.  Consequences for the model: `model_lines_exact`, `model_single_eof`
+(`DiscTop.lean`) and, through the pure theorem above, the full C04. -/
+
+theorem sortedR_mono {s : List Char} : ∀ {ts : List TokInfo}, SortedR ts → (∀ t ∈ ts, PosPair s t.byte t.start) →
+    ∀ i x y, ts.reverse[i]? = some x → ts.reverse[i + 1]? = some y → x.start ≤ y.start := by
+  intro ts hs hp i x y hx hy
+  have hpw : ts.reverse.Pairwise (fun a b => a.byte ≤ b.byte) := by
+    rw [List.pairwise_reverse]; exact hs
+  have hxm : x ∈ ts := by simpa using List.mem_of_getElem? hx
+  have hym : y ∈ ts := by simpa using List.mem_of_getElem? hy
+  have hb : x.byte ≤ y.byte := by
+    rw [List.pairwise_iff_getElem] at hpw
+    obtain ⟨hi, rfl⟩ := List.getElem?_eq_some_iff.1 hx
+    obtain ⟨hj, rfl⟩ := List.getElem?_eq_some_iff.1 hy
+    exact hpw i (i + 1) hi hj (by omega)
+  have := posPair_lt_iff (hp y hym) (hp x hxm)
+  by_cases hlt : y.start < x.start
+  · have := this.1.2 hlt; omega
+  · omega
+
+/-- token starts of the model's buffer never decrease (debug profile: kernel theorem `run_KMono`) -/
+def TokMono (b : DBuf) : Prop := ∀ i x y, b.toks[i]? = some x → b.toks[i + 1]? = some y → x.start ≤ y.start
+
+theorem model_tokMono_debug (cfg : Cfg) (hd : cfg.debug = true) (s : List Char)
+    (hend : (lexProgram cfg s).ending = some .eof) : TokMono (lexProgram cfg s).buf := by
+  obtain ⟨L2, hf, hb, hfin, hsorted⟩ := lexProgram_final cfg s hend
+  obtain ⟨hd1, _⟩ := hf.detached cfg
+  unfold TokMono
+  rw [hb, hd1]
+  have hpp : ∀ t ∈ L2.toksR, PosPair s t.byte t.start := by
+    intro t ht
+    have := hf.kpos.toks t ht
+    rw [hf.src] at this; exact this
+  exact sortedR_mono (s := s) (hsorted hd) hpp
+
+/-- the model's buffer satisfies the hypothesis of the pure theorem `C04_of_lineWF` (the line discipline is a
+theorem now; only start-offset monotonicity is a hypothesis, discharged for the debug profile below) -/
+theorem model_lineWF (cfg : Cfg) (s : List Char) (hend : (lexProgram cfg s).ending = some .eof)
+    (hmono : TokMono (lexProgram cfg s).buf) (hsmall : (lineStarts s).length < two32) :
+    LineWF s (lexProgram cfg s).buf := by
+  obtain ⟨h1, h2, _⟩ := model_lines_exact cfg s hend
+  exact ⟨h1, hsmall, fun t ht => ⟨(h2 t ht).1, (h2 t ht).2.1, (h2 t ht).2.2⟩, hmono⟩
+
+/-- **C04 for the modelled lexer, every input** (debug profile; the release profile returns the same buffer
+whenever the debug run fires no assertion — `kernel_C19_debug_release`): when the model returns at end of
+input, *every* clause of `Spec.C04` holds of its dump — line table, start line and column, end line and
+column of every token, line and column of every error. -/
+theorem C04_model_of_mono (cfg : Cfg) (s : List Char) (hlen : utf8Len s < two32)
+    (hend : (lexProgram cfg s).ending = some .eof) (hmono : TokMono (lexProgram cfg s).buf)
+    (hsmall : (lineStarts s).length < two32) :
+    Spec.C04 s (modelDump cfg s) = [] := by
+  have hW := model_lineWF cfg s hend hmono hsmall
+  obtain ⟨_, _, herr⟩ := model_lines_exact cfg s hend
+  obtain ⟨pre, e, htoks, _⟩ := model_single_eof cfg s hend
+  have hne : (lexProgram cfg s).buf.toks ≠ [] := by rw [htoks]; simp
+  unfold modelDump
+  have hl : ¬ utf8Len s ≥ two32 := by omega
+  simp only [hl, if_false, hend]
+  have key := C04_of_lineWF cfg s (lexProgram cfg s).buf (lexProgram cfg s).final.errsR.reverse
+    (if (LoopEnd.eof == LoopEnd.budget) = true then Outcome.budget else Outcome.ok) (lexProgram cfg s).snap
+    (lexProgram cfg s).iters hW hne
+  generalize hD : dumpOfBuf cfg s (lexProgram cfg s).buf (lexProgram cfg s).final.errsR.reverse
+    (if (LoopEnd.eof == LoopEnd.budget) = true then Outcome.budget else Outcome.ok) (lexProgram cfg s).snap
+    (lexProgram cfg s).iters = D at key ⊢
+  have hDe : D.errs = (lexProgram cfg s).final.errsR.reverse := by rw [← hD]; rfl
+  have herrs : (D.errs.all fun e => e.line == lineIdxOfChar s e.char + 1 && e.col == colOfChar s e.char) = true := by
+    rw [hDe, List.all_eq_true]
+    intro e he
+    have := herr e (by simpa using he)
+    simp [this.1, this.2]
+  unfold Spec.C04 at key ⊢
+  simp only [herrs, Spec.clause, if_true, List.append_nil] at key ⊢
+  have hno : ∀ (n : String) (b : Bool), n ≠ "error-line-col" → (∀ c ∈ (if b = true then [] else [n]), c = "error-line-col") →
+      (if b = true then ([] : List String) else [n]) = [] := by
+    intro n b hn hc
+    cases b with
+    | true => rfl
+    | false => exact absurd (hc n (by simp)) hn
+  generalize (D.lines == lineStarts s) = b1 at key ⊢
+  generalize (D.toks.all fun t => t.line == lineIdxOfChar s t.start) = b2 at key ⊢
+  have e1 := hno "line-infos" b1 (by decide) (fun c hc => key c (by simp [hc]))
+  have e2 := hno "token-start-line" b2 (by decide) (fun c hc => key c (by simp [hc]))
+  rw [e1, e2] at key ⊢
+  simp only [List.append_nil, List.nil_append] at key ⊢
+  exact hno "resolved-rows" _ (by decide) key
+
+
+/-- **C04 for the modelled lexer, debug profile, every input**: no hypothesis on the control logic is left -/
+theorem C04_model (cfg : Cfg) (hd : cfg.debug = true) (s : List Char) (hlen : utf8Len s < two32)
+    (hend : (lexProgram cfg s).ending = some .eof) (hsmall : (lineStarts s).length < two32) :
+    Spec.C04 s (modelDump cfg s) = [] :=
+  C04_model_of_mono cfg s hlen hend (model_tokMono_debug cfg hd s hend) hsmall
+
+/-- non-vacuity of `C04_model` / `model_lines_exact`: a program with a BOM, line feeds inside a string, a comment
+and a macro call argument, a rollback and a recovery token runs to end of input in the model -/
+example : (lexProgram ⟨true, true, false⟩ "\uFEFFa='x\ny';/*\n*/%m\n\n (a\n=1);%let b 1;".toList).ending = some .eof := by
+  decide +kernel
+example : (lexProgram ⟨false, false, false⟩ "data a;\ndatalines;\n1 2\n;\n%macro m(a=1);\n* c;\n%mend;".toList).ending = some .eof := by
   decide +kernel
 
 end SasLexer
